@@ -1,7 +1,7 @@
 /* the real leaf functions that tools/c2gallina.py translates, behind one line protocol (validation of the translator):
      cm_hash H | cdb_hash H | hashadd h c | unpack H4 | pack n | case_diffb Ha Hb | case_lowerb H | byte_chr H c | byte_rchr H c |
      str_chr H c | str_rchr H c | scan_ulong H | scan_8long H | fmt_ulong u | fmt_uint0 u n | fmt_str H | byte_copy H n | byte_copyr H n |
-     byte_zero H n | str_start Ha Hb | case_diffs Ha Hb | case_starts Ha Hb          (H = hex bytes; strings get a NUL appended) */
+     byte_zero H n | str_start Ha Hb | case_diffs Ha Hb | case_starts Ha Hb | ip_scan H | ip_scanbracket H | ip_fmt H4 | quote_doit H          (H = hex bytes; strings get a NUL appended) */
 #include "h_common.h"
 #include "constmap.c"
 #include "cdb.h"
@@ -10,6 +10,11 @@
 #include "str.h"
 #include "scan.h"
 #include "fmt.h"
+#include "ip.h"
+#include "stralloc.h"
+#define quote h_quote_unused
+#include "quote.c"
+#undef quote
 static unsigned char a[1 << 16], b[1 << 16];
 int main(void) {
   static char line[1 << 18];
@@ -41,6 +46,10 @@ int main(void) {
     else if (IS("str_start")) { la = h_unhex(tok[1], a); a[la] = 0; lb = h_unhex(tok[2], b); b[lb] = 0; fprintf(h_res, "%d\n", str_start((char *) a, (char *) b)); }
     else if (IS("case_diffs")) { int r; la = h_unhex(tok[1], a); a[la] = 0; lb = h_unhex(tok[2], b); b[lb] = 0; r = case_diffs((char *) a, (char *) b); fprintf(h_res, "%d\n", r < 0 ? -1 : r > 0); }
     else if (IS("case_starts")) { la = h_unhex(tok[1], a); a[la] = 0; lb = h_unhex(tok[2], b); b[lb] = 0; fprintf(h_res, "%d\n", case_starts((char *) a, (char *) b)); }
+    else if (IS("ip_scan") || IS("ip_scanbracket")) { struct ip_address ip; unsigned int r; la = h_unhex(tok[1], a); a[la] = 0; memset(&ip, 0, sizeof ip);
+      r = IS("ip_scan") ? ip_scan((char *) a, &ip) : ip_scanbracket((char *) a, &ip); fprintf(h_res, "%u ", r); h_puthex(ip.d, 4); fputc('\n', h_res); }
+    else if (IS("ip_fmt")) { struct ip_address ip; unsigned int r; h_unhex(tok[1], ip.d); r = ip_fmt((char *) a, &ip); fprintf(h_res, "%u ", r); h_puthex(a, r); fputc('\n', h_res); }
+    else if (IS("quote_doit")) { static stralloc out = {0}, in = {0}; int r; la = h_unhex(tok[1], a); stralloc_copyb(&in, (char *) a, la); r = doit(&out, &in); fprintf(h_res, "%d %u ", r, out.len); h_puthex((unsigned char *) out.s, out.len); fputc('\n', h_res); }
     else fputs("?\n", h_res);
     fflush(h_res);
   }
